@@ -411,6 +411,7 @@ def hdr_checks(ctx, x):
     for fname, rev in (('a_poly_eval', False), ('a_poly_evar', True)):
         fn = ctx.fn('poly', fname)
         if fn is None:
+            rep.unk('T3w', fname, 'anchor vanished')
             continue
         for n in range(1, 7):
             dom = alg.Alg()
